@@ -244,20 +244,20 @@ func Expand(s string, mapping func(string) string) string {
 	return b.String()
 }
 
-func Getpid() int                     { return 4242 }
-func Getppid() int                    { return 1 }
-func Getuid() int                     { return 1000 }
-func Geteuid() int                    { return 1000 }
-func Getgid() int                     { return 1000 }
-func Getegid() int                    { return 1000 }
-func Getpagesize() int                { return 4096 }
-func Hostname() (string, error)       { return "simhost", nil }
-func Executable() (string, error)     { return "/sim/bin/gopatch", nil }
-func TempDir() string                 { return "/tmp" }
-func UserHomeDir() (string, error)    { return "/home/sim", nil }
-func UserCacheDir() (string, error)   { return "/home/sim/.cache", nil }
-func UserConfigDir() (string, error)  { return "/home/sim/.config", nil }
-func Getgroups() ([]int, error)       { return []int{1000}, nil }
+func Getpid() int                    { return 4242 }
+func Getppid() int                   { return 1 }
+func Getuid() int                    { return 1000 }
+func Geteuid() int                   { return 1000 }
+func Getgid() int                    { return 1000 }
+func Getegid() int                   { return 1000 }
+func Getpagesize() int               { return 4096 }
+func Hostname() (string, error)      { return "simhost", nil }
+func Executable() (string, error)    { return "/sim/bin/gopatch", nil }
+func TempDir() string                { return "/tmp" }
+func UserHomeDir() (string, error)   { return "/home/sim", nil }
+func UserCacheDir() (string, error)  { return "/home/sim/.cache", nil }
+func UserConfigDir() (string, error) { return "/home/sim/.config", nil }
+func Getgroups() ([]int, error)      { return []int{1000}, nil }
 
 // ---------------------------------------------------------------------------
 // File
@@ -457,11 +457,11 @@ func (f *File) SetWriteDeadline(t time.Time) error { return ErrNoDeadline }
 
 type dirEntry struct{ st *world.FileStat }
 
-func (d dirEntry) Name() string               { return d.st.Name() }
-func (d dirEntry) IsDir() bool                { return d.st.IsDir() }
-func (d dirEntry) Type() FileMode             { return d.st.Mode().Type() }
-func (d dirEntry) Info() (FileInfo, error)    { return d.st, nil }
-func (d dirEntry) String() string             { return fs.FormatDirEntry(d) }
+func (d dirEntry) Name() string            { return d.st.Name() }
+func (d dirEntry) IsDir() bool             { return d.st.IsDir() }
+func (d dirEntry) Type() FileMode          { return d.st.Mode().Type() }
+func (d dirEntry) Info() (FileInfo, error) { return d.st, nil }
+func (d dirEntry) String() string          { return fs.FormatDirEntry(d) }
 
 func (f *File) readdir(n int) ([]world.DirEntryInfo, error) {
 	ents, atEOF, e := f.h.ReadDirNames(n)
